@@ -502,7 +502,8 @@ class SigWorld(World):
                     res = await self.capp.express(name, validator, lifetime=flow.get('lifetime', 20), nonce=900 + fid)
                     got = res[1]
                 else:
-                    res = await self.capp.express_interest(name, validator=validator, lifetime=flow.get('lifetime', 20), nonce=900 + fid)
+                    res = await self.capp.express_interest(name, validator=validator, lifetime=flow.get('lifetime', 20), nonce=900 + fid,
+                                                           need_raw_packet=bool(flow.get('need_raw')))
                     got = res[2]
                 self.log('flow-done', fid=fid, out='accepted', content=None if got is None else bytes(got))
             except ndn_types.ValidationFailure:
@@ -852,6 +853,7 @@ def generate(rng, seed, tier='quick'):
              + (['36=ab'] if d == 'interest' and rng.random() < 0.12 else []),
              'content_len': clen, 'app_param_len': rng.choice([0, 0, 1, 10, 252, 253, 300]) if d == 'interest' else 0,
              'mut_dir': 'p2c' if d == 'data' else 'c2p', 'lifetime': 20, 'delay_us': rng.choice([1, 10, 1000]),
+             'need_raw': rng.random() < 0.25,
              'mutation': rand_mut(rng) if rng.random() < 0.75 else None,
              '_fixup': None,
              'verifier': 'match' if rng.random() < 0.9 else 'wrongkey'}
